@@ -9,7 +9,7 @@ CLAUSE = ("every sealed value is byte for byte the documented construction (form
 
 
 def run(ck):
-    thm_ok = ck.theorems("C13", ["theories/Corr/CryptoCorr.vo", "theories/Proofs/Crypto/Vectors.vo"])
+    thm_ok = ck.theorems("C13", ["theories/Corr/CryptoCorr.vo", "theories/Proofs/Crypto/Vectors.vo", "theories/Corr/BackendCorr.vo"])
     if thm_ok:
         ck.obligations.append(("RFC 6234 / 4231 / 7914-style / 8439 test vectors of the model (Proofs/Crypto/Vectors.v)", True, "all Examples checked by the build"))
     ok, log = ck.harness_build()
@@ -82,6 +82,15 @@ def run(ck):
             "broken": "Corr.CryptoCorr.check_sealed (model recomputation of sealed bytes)", "cases": [cases[i] for i in diffs[:3]],
             "verdicts": [verdicts[i] for i in diffs[:3]], "seed": ck.seed})
         ck.violation(path, no_input=True)
+    # what actually leaves the host over HTTP: every request body the harness-side server receives must be
+    # in the sealed form and open under (secret, client id as salt, the id in the url), and tampered
+    # responses must be refused (harness/src/backendfam.rs, kind http)
+    import synccheck
+    synccheck.run_family(ck, "backend", 12 if quick else 200, CLAUSE + " [HTTP bodies as received by a server]",
+                         lambda c: c["features"].get("bodies_unsealed", 0) >= 1,
+                         extra_args=["--kind", "http"], module="Corr.BackendCorr", fn="check_bcase",
+                         ctype="(list (bcall * bres))", wf="wf_bcase", per_file=60, view="bmodel_view", corpus=False,
+                         spec_is_property=True, tag="http")
     if not thm_ok and not ck.violations:
         path = ck.write_replay("theorem", {"property": ck.prop, "kind": "a theorem of Properties/C13.v or a test vector no longer checks",
                                            "obligations": ck.obligations, "log": getattr(ck, "build_log", "")[-4000:]})
